@@ -133,7 +133,7 @@ impl Substitute for syn::TypeParam {
                 .cartesian_product(bounds)
                 .map(|(default, bounds)| Self {
                     default,
-                    bounds: bounds.into_iter().collect(),
+                    bounds: repunctuate(&self.bounds, bounds),
                     ..self.clone()
                 })
                 .collect()
